@@ -203,16 +203,20 @@ fn search_decl_references_with_ctx<'a>(
         .get_decl_index()
         .get_decl(&decl_id)?;
     if decl.is_local() {
-        let decl_refs = semantic_model
-            .get_db()
-            .get_reference_index()
-            .get_decl_references(&decl_id.file_id, &decl_id)?;
         let document = semantic_model.get_document();
         if ctx.include_declaration
             && let Some(location) = document.to_lsp_location(decl.get_range())
         {
             result.push(location);
         }
+        // a local that is never used has no entry in the reference index
+        let Some(decl_refs) = semantic_model
+            .get_db()
+            .get_reference_index()
+            .get_decl_references(&decl_id.file_id, &decl_id)
+        else {
+            return Some(());
+        };
         let typ = semantic_model.get_type(decl.get_id().into());
         let should_follow_value_alias = matches!(
             typ,
